@@ -205,6 +205,7 @@ structure Params where
   -- gopkg skipper
   skipDepth : Nat
   skipFixed : List (Nat × Nat)
+  skipRecovers : Bool        -- frugal wraps thrift.Binary.Skip in a recover
   -- span.go / decoder.go Malloc routing
   blockSize : Nat
   directDiv : Nat            -- `n > defaultDecoderMemSize / directDiv` goes to the runtime
